@@ -29,6 +29,10 @@ type c07Input struct {
 	Resume  bool   `json:"resume,omitempty"`
 	Suite2  uint16 `json:"suite2,omitempty"` // declined resumption: the second connection offers the session but only this other suite
 	Chain2  string `json:"chain2,omitempty"` // ... and presents this chain in the full handshake that follows
+	// the server's trust settings: Roots "" (ClientCAs = RootCAs = the CA), "other" (another CA), "rootcas-only" (RootCAs = the CA,
+	// no ClientCAs: nothing is configured for client certificates); Shift moves the server's configured clock by whole years
+	Roots string `json:"roots,omitempty"`
+	Shift int    `json:"shift,omitempty"`
 }
 
 var c07Policies = []string{"NoClientCert", "RequestClientCert", "RequireAnyClientCert", "VerifyClientCertIfGiven", "RequireAndVerifyClientCert", "RequireAndVerifyAnyKeyUsageClientCert"}
@@ -36,7 +40,7 @@ var c07Policies = []string{"NoClientCert", "RequestClientCert", "RequireAnyClien
 func c07Chain(name string) (chain [][]byte, sig, enc *tk.Leaf) {
 	pk := tk.GetPKI()
 	switch name {
-	case "none":
+	case "none", "skip": // skip: asked for a certificate, the client sends no Certificate message at all
 		return nil, nil, pk.CliEnc
 	case "cli":
 		return [][]byte{pk.CliSig.DER, pk.CliEnc.DER}, pk.CliSig, pk.CliEnc
@@ -56,7 +60,10 @@ func c07Chain(name string) (chain [][]byte, sig, enc *tk.Leaf) {
 	panic("chain " + name)
 }
 
-func c07Verify(der []byte, policy int) bool {
+func c07Verify(der []byte, policy int) bool { return c07VerifyAt(der, policy, "", 0) }
+
+// c07VerifyAt: the oracle's chain verdict under the server's client roots and configured clock
+func c07VerifyAt(der []byte, policy int, roots string, shift int) bool {
 	pk := tk.GetPKI()
 	c, err := x509.ParseCertificate(der)
 	if err != nil {
@@ -66,7 +73,14 @@ func c07Verify(der []byte, policy int) bool {
 	if policy == 5 {
 		ku = []x509.ExtKeyUsage{x509.ExtKeyUsageAny}
 	}
-	_, err = c.Verify(x509.VerifyOptions{Roots: pk.CA.Pool, CurrentTime: tk.Now(), Intermediates: x509.NewCertPool(), KeyUsages: ku})
+	pool := pk.CA.Pool
+	switch roots {
+	case "other":
+		pool = pk.OtherCA.Pool
+	case "rootcas-only", "none":
+		pool = x509.NewCertPool()
+	}
+	_, err = c.Verify(x509.VerifyOptions{Roots: pool, CurrentTime: tk.EPConfig{TimeShiftYears: shift}.Clock(), Intermediates: x509.NewCertPool(), KeyUsages: ku})
 	return err == nil
 }
 
@@ -91,7 +105,7 @@ func c07Conn(in c07Input, policy int, reg *tk.Registry, offerSID, offerMaster []
 		}
 		return 0
 	}
-	sc := tk.EPConfig{Ident: "srv", Auth: policy, Cache: "shared"}
+	sc := tk.EPConfig{Ident: "srv", Auth: policy, Cache: "shared", Roots: in.Roots, TimeShiftYears: in.Shift}
 	chain, sig, enc := c07Chain(in.Chain)
 	ecdhe := puppet.IsECDHE(in.Suite)
 	var cvSig, cvTBS []byte
@@ -121,7 +135,7 @@ func c07Conn(in c07Input, policy int, reg *tk.Registry, offerSID, offerMaster []
 		} else {
 			p.ForceMaster = nil
 			p.Master = nil
-			if p.CertRequested {
+			if p.CertRequested && in.Chain != "skip" {
 				certMsg = true
 				p.SendCertificate(chain)
 			}
@@ -186,10 +200,10 @@ func c07Conn(in c07Input, policy int, reg *tk.Registry, offerSID, offerMaster []
 	}
 	r.view[2] = b2i(parseOK)
 	if len(chain) > 0 {
-		r.view[3] = b2i(c07Verify(chain[0], policy))
+		r.view[3] = b2i(c07VerifyAt(chain[0], policy, in.Roots, in.Shift))
 	}
 	if len(chain) > 1 {
-		r.view[4] = b2i(c07Verify(chain[1], policy))
+		r.view[4] = b2i(c07VerifyAt(chain[1], policy, in.Roots, in.Shift))
 	}
 	var pub *ecdsa.PublicKey
 	if len(certs) > 0 && certs[0] != nil {
@@ -251,7 +265,7 @@ func c07AddCase(out *emit.Out, scenario string, in c07Input) {
 	if first.view[0] == 0 {
 		n = 0
 	}
-	chainOK := n > 0 && c07Verify(chain[0], in.Policy2) && (!ecdhe || (n > 1 && c07Verify(chain[1], in.Policy2)))
+	chainOK := n > 0 && c07VerifyAt(chain[0], in.Policy2, in.Roots, in.Shift) && (!ecdhe || (n > 1 && c07VerifyAt(chain[1], in.Policy2, in.Roots, in.Shift)))
 	out.Add(emit.Case{Scenario: scenario + "/" + in.Stack, Trivial: false, Input: in, Direct: second.direct,
 		Observed: map[string]interface{}{"resumed": second.resumed, "accepted": second.accepted, "peer_certs": second.peerN, "verified_chains": second.chainsN},
 		Coq: fmt.Sprintf("SrvResumeCase %s (mkSeV %d%%nat %s %s) %s %s %s", c07Policies[in.Policy2], n, emit.Bool(chainOK), emit.Bool(ecdhe),
@@ -295,6 +309,16 @@ func runC07(p params) error {
 				for _, cv := range cvs {
 					c07AddCase(out, "cv-"+cv, c07Input{Stack: st, Suite: su, Policy: pol, Chain: "cli", CV: cv})
 				}
+				// asked for a certificate, the client goes straight to the key exchange
+				c07AddCase(out, "chain-skip", c07Input{Stack: st, Suite: su, Policy: pol, Chain: "skip", CV: "ok"})
+				// the server's own trust settings: another CA / nothing configured for client certificates (only RootCAs);
+				// its configured clock after the end of the chain's validity (+20 years)
+				for _, ro := range []string{"other", "rootcas-only"} {
+					for _, ch := range []string{"cli", "cli-untrusted"} {
+						c07AddCase(out, "roots-"+ro, c07Input{Stack: st, Suite: su, Policy: pol, Chain: ch, CV: "ok", Roots: ro})
+					}
+				}
+				c07AddCase(out, "clock-after-validity", c07Input{Stack: st, Suite: su, Policy: pol, Chain: "cli", CV: "ok", Shift: 20})
 				// a session created with a certificate, then offered on another suite by a client that presents none
 				if !puppet.IsECDHE(su) && pol >= 3 {
 					other := map[uint16]uint16{0xe053: 0xe013, 0xe013: 0xe053}[su]
